@@ -113,6 +113,13 @@ impl Scenario for C16N {
             yield_mask: r.next_u64() | r.next_u64(),
             salt: r.next_u64(),
         };
+        let mut p = p;
+        if r.chance(1, 6) {
+            // one call that fails after a lap of the number space went by while it waited for the connection
+            let t = r.below(p.tasks.len() as u64) as usize;
+            let at = r.below(p.tasks[t].len() as u64 + 1) as usize;
+            p.tasks[t].insert(at, Op { kind: "rpc_fails_after_a_lap".to_string(), pause_ms: 0 });
+        }
         serde_json::to_value(p).unwrap()
     }
 
@@ -220,6 +227,42 @@ async fn do_op(w: &Arc<World>, node: &Node, op: &Op, me: &Val, seen: &Arc<Mutex<
                 Err(edp_node::Error::RpcTimeout(_)) => w.stat("probe.c16n.rpc_timed_out"),
                 Err(edp_node::Error::Client(_)) => w.stat("probe.c16n.rpc_send_failed"),
                 _ => {}
+            }
+        }
+        "rpc_fails_after_a_lap" => {
+            // A call has taken its reply identifier and waits for the connection's mutex; meanwhile exactly one lap of
+            // the number space goes by (moved there through the allocator's accessors, the last step of the lap made
+            // for real by a spawn); then the call cannot be sent. Whatever the failing call does with its
+            // identifier, the identifiers handed out afterwards are new.
+            let conn = node.connections().get(PEER_NAME).map(|e| Arc::clone(e.value()));
+            let Some(conn) = conn else { return };
+            let mut guard = conn.lock().await;
+            let a = node.verif_pid_allocator();
+            let before = a.next_id_test_only().load(std::sync::atomic::Ordering::SeqCst);
+            let call = node.rpc_call_raw_with_timeout(PEER_NAME, "m", "f", vec![OwnedTerm::Integer(0)], Duration::from_millis(40));
+            let lap = async {
+                tokio::time::sleep(Duration::from_millis(1)).await;
+                let now = a.next_id_test_only().load(std::sync::atomic::Ordering::SeqCst);
+                if now == before + 1 && before >= 1 {
+                    // only the waiting call has allocated since: (before, s) is its identifier
+                    a.next_id_test_only().store(before, std::sync::atomic::Ordering::SeqCst);
+                    a.next_serial_test_only().fetch_add(1, std::sync::atomic::Ordering::SeqCst);
+                    if let Ok(pid) = node.spawn(Idle).await {
+                        seen.lock().unwrap().pids.push(("process identifier from spawn (last step of a lap)".to_string(), pid_val(&pid)));
+                        w.stat("probe.c16n.a_lap_went_by_while_a_call_waited");
+                    }
+                }
+                let _ = guard.close().await;
+                drop(guard);
+            };
+            let (r, _) = tokio::join!(call, lap);
+            if r.is_err() {
+                w.stat("probe.c16n.rpc_send_failed");
+            }
+            for _ in 0..2 {
+                if let Ok(pid) = node.spawn(Idle).await {
+                    seen.lock().unwrap().pids.push(("process identifier from spawn".to_string(), pid_val(&pid)));
+                }
             }
         }
         "rpc_unconnected" => {
